@@ -556,6 +556,10 @@ func (w *worker) runC14(p *harness.Pkg, t *tape.Tape, logOn bool) *verdict {
 			if d.Entered && !d.Finished {
 				v.violate("stall:unfinished-server-task", "server task did not finish", exp)
 			}
+			if d.Handler != "" && d.Panic == "" && d.ParsePanic == "" && d.HeaderWrites == 0 && d.Finished {
+				// the handler returned a documented response value, but the generated code never started a response
+				v.violate("no-response:handler-result-not-written", fmt.Sprintf("handler %s returned a response value but neither WriteHeader nor Write was called (the shell had to send an implicit empty 200)", d.Handler), exp)
+			}
 		}
 	}
 	v.distinctKey = strings.Join(dk, "|")
@@ -717,6 +721,13 @@ func (w *worker) runC20(p *harness.Pkg, t *tape.Tape, logOn bool) *verdict {
 			name = what[:i]
 		}
 		v.violate("sharedwrite:"+strings.ReplaceAll(name, " ", "_"), strings.Join(res.SharedWrites, "\n"), exp)
+	}
+	if len(res.Races) > 0 {
+		var all []string
+		for _, r := range res.Races {
+			all = append(all, r.Text)
+		}
+		v.violate("race:"+res.Races[0].Loc, strings.Join(all, "\n"), exp+"; no two accesses to one location by different tasks, one of them a write, without a happens-before edge between them")
 	}
 	if !v.violated && res.Err == nil {
 		tags := append([]string(nil), res.Order...)
